@@ -390,6 +390,8 @@ func (ex *Exec) abstractArgs(st *State, v Value) []*Term {
 		return nil
 	case *ReflVal:
 		return []*Term{ex.abstractItem(x.IV)}
+	case *HostVal:
+		return ex.abstractArgs(st, x.V)
 	case *TupleVal:
 		var r []*Term
 		for _, f := range x.V {
